@@ -39,9 +39,15 @@ func (o *OvsMap) UnmarshalJSON(b []byte) (err error) {
 	var oMap []interface{}
 	o.GoMap = make(map[interface{}]interface{})
 	if err := json.Unmarshal(b, &oMap); err == nil && len(oMap) > 1 {
-		innerSlice := oMap[1].([]interface{})
+		innerSlice, ok := oMap[1].([]interface{})
+		if !ok {
+			return &json.UnmarshalTypeError{Value: reflect.ValueOf(oMap).String(), Type: reflect.TypeOf(*o)}
+		}
 		for _, val := range innerSlice {
-			f := val.([]interface{})
+			f, ok := val.([]interface{})
+			if !ok || len(f) != 2 {
+				return &json.UnmarshalTypeError{Value: reflect.ValueOf(oMap).String(), Type: reflect.TypeOf(*o)}
+			}
 			var k interface{}
 			switch f[0].(type) {
 			case []interface{}:
@@ -56,6 +62,12 @@ func (o *OvsMap) UnmarshalJSON(b []byte) (err error) {
 				k = goSlice
 			default:
 				k = f[0]
+			}
+			// only atoms are valid map keys, anything else is not even hashable
+			switch k.(type) {
+			case string, float64, bool, UUID:
+			default:
+				return &json.UnmarshalTypeError{Value: reflect.ValueOf(oMap).String(), Type: reflect.TypeOf(*o)}
 			}
 			switch f[1].(type) {
 			case []interface{}:
